@@ -15,6 +15,18 @@ def run(tier, v, wd, replay=None):
     v.add_tlc(r)
     repo = vlib.scratch_repo(wd, "stub")
     run_vectors(v, wd, repo, "./component/outbound/dialer/", "TestVerifC16", infile, timeout=900)
-    v.assumptions += ["two nodes sharing one proxy address, each in one latency-policy group per health domain",
-                      "the reload quiesce tail after EndReloadProxyFailureSuppression is skipped by resetting its deadline (time-based, covered under C20 at protocol level)",
-                      "reload snapshot/restore and EnsureReloadSelectionFloor are not yet driven"]
+    # reload hand-over: the last known state is inherited and every type keeps one selectable node (GroupSelect.tla with WithReload)
+    r = vlib.tlc(wd, "GroupSelect", "GroupSelect_reload_mc.cfg", timeout=1500)
+    v.add_tlc(r)
+    if r.violated:
+        raise vlib.Infra("GroupSelect.tla violates %s in the model (reload)" % r.violated)
+    rfile = os.path.join(wd.path, "c16r.ndjson")
+    rn = 1500 if tier == "quick" else 30000
+    r = vlib.tlc(wd, "GroupSelect", "GroupSelect_reload.cfg", emit_to=rfile, simulate={"num": rn}, depth=14, workers=4, timeout=1500, max_emit=rn)
+    v.add_tlc(r)
+    if r.violated:
+        raise vlib.Infra("GroupSelect.tla violates %s in the model (reload gen)" % r.violated)
+    run_vectors(v, wd, repo, "./control/", "TestVerifC16Reload", rfile, tags="verif,dae_stub_ebpf", timeout=900, outname="out-r.json")
+    v.assumptions += ["reload hand-over through the production ControlPlane.InheritDialerHealthFrom on two generations of a three-node group",
+                      "two nodes sharing one proxy address, each in one latency-policy group per health domain",
+                      "the reload quiesce tail after EndReloadProxyFailureSuppression is skipped by resetting its deadline (time-based, covered under C20 at protocol level)"]
